@@ -4,7 +4,7 @@ from __future__ import annotations
 
 import random
 
-from .common import ElemError, SrcError, SubmitError, strip
+from .common import ElemError, SrcError, SubmitError, strip, unpp
 
 
 def corner_scenarios(max_n=6):
@@ -37,7 +37,10 @@ def gen_scenarios(rnd: random.Random, count, max_n=6, max_cap=3):
         if variant == 'afifo' and not srcfail and n and rnd.random() < 0.3:
             cand = [i for i in range(1, n + 1) if i not in prefail]
             subfail = rnd.choice(cand) if cand else 0
+        okidx = [i for i in range(1, n + 1) if i not in fail and i not in prefail]
+        retobj = sorted(rnd.sample(okidx, min(len(okidx), rnd.choice([0, 0, 1, 2])))) if okidx else []
         out.append({'n': n, 'cap': cap, 'conc': 8, 'retexc': rnd.random() < 0.6, 'fail': fail, 'subfail': subfail,
+                    'retobj': retobj,
                     'prefail': prefail, 'srcfail': srcfail, 'srcbase': False, 'maybreak': brk is not None,
                     'mode': 'async', 'variant': variant, 'retx': rnd.random() < 0.6, 'break_at': brk,
                     'usepre': bool(prefail) or rnd.random() < (0.6 if subfail else 0.3),
@@ -95,7 +98,7 @@ def _install():
         if isinstance(item, BaseException):
             return {'t': 'exc', 'x': 0, 'f': 0}
         if isinstance(item, tuple) and len(item) == 2:
-            return {'t': 'item', 'x': item[0], 'f': _tid(item[1])}
+            return {'t': 'item', 'x': item[0] if isinstance(item[0], int) else -1, 'f': _tid(item[1])}
         return {'t': 'other', 'x': 0, 'f': 0}
 
     oput, oget = asyncio.Queue.put, asyncio.Queue.get
@@ -164,6 +167,8 @@ def _make_scenario(sc):
             detsched.emit('Pull', i=k)
             yield k
 
+    retobj = set(sc.get('retobj') or [])
+
     async def _awork(x):
         detsched.emit('WStart', i=x)
         await asyncio.sleep(dur[x] * 0.01)
@@ -171,9 +176,12 @@ def _make_scenario(sc):
             detsched.emit('WFinish', i=x, kind='err')
             raise ElemError(x)
         detsched.emit('WFinish', i=x, kind='ok')
+        if x in retobj:
+            return ElemError(x, 'returned')     # an exception object RETURNED as the result (see the sync binder)
         return ('r', x)
 
     def awork(x):
+        x = unpp(x)
         c = _awork(x)
         _coro_x[id(c)] = x
         return c
@@ -182,9 +190,11 @@ def _make_scenario(sc):
         if x in prefail:
             detsched.emit('PreFail', i=x)
             raise ElemError(x, 'pre')
-        return x
+        return ('pp', x)      # TRANSFORMING preprocessor (see the sync binder)
 
     def classify_y(y):
+        if isinstance(y, ElemError) and y.site == 'returned':
+            return y.i, 'ok'
         if isinstance(y, ElemError):
             return y.i, 'err'
         if isinstance(y, tuple) and len(y) == 2 and y[0] == 'r':
@@ -210,6 +220,7 @@ def _make_scenario(sc):
                     break
                 if retx:
                     x, y = v
+                    x = x if isinstance(x, int) else -1      # paired with its own ORIGINAL input
                 else:
                     x, y = 0, v
                 yi, kind = classify_y(y)
@@ -236,12 +247,12 @@ def _make_scenario(sc):
             gen = s.__aiter__()
         else:
             async def func(x):
-                if x == sc.get('subfail', 0):
-                    detsched.emit('SubFail', i=x)
-                    raise SubmitError(x)
-                detsched.emit('Submit', i=x)
+                if unpp(x) == sc.get('subfail', 0):
+                    detsched.emit('SubFail', i=unpp(x))
+                    raise SubmitError(unpp(x))
+                detsched.emit('Submit', i=unpp(x))
                 t = loop.create_task(awork(x))
-                t._vi = x
+                t._vi = unpp(x)
                 return t
 
             gen = async_fifo_stream(agen(), func, capacity=sc['cap'], return_x=retx, return_exceptions=retexc,
@@ -255,7 +266,7 @@ def _make_scenario(sc):
             return await inner(x)
 
         def wrapper(x):
-            detsched.emit('Submit', i=x)
+            detsched.emit('Submit', i=unpp(x))
             return aw(x)
 
         import inspect
